@@ -11,6 +11,10 @@ ALL_TAGS = [c[0] for c in CONFIGS]
 
 def variants(rng, c, k):
     out = []
+    if getattr(c.g, "probe", None) == "F13":
+        g2 = copy.deepcopy(c.g)
+        gen.add_user_inline(rng, g2, subset=set(c.g.probe_inline))
+        return [(g2, gmodel.grammar_text(g2), gmodel.desugar(g2))]
     cand = gen.inlinable(c.g)
     seen = set()
     for _ in range(k * 3):
@@ -88,8 +92,16 @@ def run(tier, seed):
     n_gram = {"quick": 24, "thorough": 250}[tier]
     nvar = {"quick": 2, "thorough": 4}[tier]
     gk = dict(fallible=0.35, sugar=0.12, nnt=(2, 5), modes=("user", "user", "user", "unit", "pick", "single"))
+    from .. import probes
+    _st = {"first": True}
+
+    def with_probe(r, inner):
+        if _st["first"]:
+            _st["first"] = False
+            return probes.f13_grammar()
+        return inner(r)
     subj, cases = pipeline.make_cases(
-        chk, rng, n_gram, lambda r: (gen3.add_inline_pair(r, gen.gen_core(r, **gk)) if r.random() < 0.5 else gen.gen_core(r, **gk)), ALL_TAGS,
+        chk, rng, n_gram, lambda r: with_probe(r, lambda r: (gen3.add_inline_pair(r, gen.gen_core(r, **gk)) if r.random() < 0.5 else gen.gen_core(r, **gk))), ALL_TAGS,
         want=lambda g, cfg: len(gen.inlinable(g)) >= 1,
         variants_fn=lambda c: variants(vrng, c, nvar))
     irng = chk.rng("inputs")
@@ -98,6 +110,10 @@ def run(tier, seed):
     budget = {"quick": (60, 60, 40, 30), "thorough": (300, 200, 150, 60)}[tier]
     for c in cases:
         pipeline.inputs_for_case(irng, c, exhaustive_budget=budget[0], nrandom=budget[1], nmut=budget[2], max_len=budget[3], foreign=False)
+        for w in getattr(c.g, "probe_inputs", []):
+            for s0 in c.inputs:
+                if w not in c.inputs[s0]:
+                    c.inputs[s0].append(w)
         fall = sorted({a.pid for nt in c.g.nts for a in nt.alts if a.fallible})
         for s, ins in c.inputs.items():
             for w in ins:
